@@ -207,6 +207,42 @@ func (ci *caseInfo) classify(e df.GraphNode, call ssa.CallInstruction, class str
 	}
 }
 
+// checkStopNodes: the traversal stops (sanitizer) only at nodes that belong to a call of a sanitizer:
+// the call node itself or one of its argument nodes. Exact comparison of the real isSanitizer with
+// that expectation on every node of the summary graph.
+func checkStopNodes(rep *lib.Report, state *df.AnalyzerState, ts *config.TaintSpec, sg *df.SummaryGraph, src string) {
+	if sg == nil {
+		return
+	}
+	calleeName := func(n df.GraphNode) string {
+		var c ssa.CallInstruction
+		switch x := n.(type) {
+		case *df.CallNode:
+			c = x.CallSite()
+		case *df.CallNodeArg:
+			c = x.ParentNode().CallSite()
+		default:
+			return ""
+		}
+		if c == nil || c.Common().StaticCallee() == nil {
+			return ""
+		}
+		return c.Common().StaticCallee().Name()
+	}
+	sg.ForAllNodes(func(n df.GraphNode) {
+		want := calleeName(n) == "sanitize"
+		got := taint.VerifC02IsSanitizer(state, ts, n)
+		rep.Case("")
+		if want {
+			rep.Count("stop:sanitizer-node")
+		}
+		if got != want {
+			rep.Fail("stop-node:"+n.String(), fmt.Sprintf("isSanitizer(%s)=%v but the node %s a sanitizer call: the traversal stops at a node that data does not have to have been sanitised at (or goes on through a sanitizer)", n.String(), got, map[bool]string{true: "belongs to", false: "does not belong to"}[want]),
+				[]byte(fmt.Sprintf("function %s\n%s\nnode %s (%s)\nreal isSanitizer=%v expected=%v\n", sg.Parent.String(), src, n.String(), strings.TrimSpace(df.NodeKind(n)), got, want)), false)
+		}
+	})
+}
+
 // addEdgeQueries walks the real summary graph of d.fn.
 func addEdgeQueries(bt *batch, rep *lib.Report, d *fdump, ts *config.TaintSpec, sg *df.SummaryGraph, hdr, src string, ci *caseInfo, m *mismatchReporter) {
 	if sg == nil {
@@ -549,6 +585,7 @@ func runProgram(rep *lib.Report, dir, pkg, text string, cases []*caseInfo, skelS
 			nSkel++
 		}
 		addEdgeQueries(bt, rep, d, ts, res.Analysis.State.FlowGraph.Summaries[f], hdr, src, ci, m)
+		checkStopNodes(rep, res.Analysis.State, ts, res.Analysis.State.FlowGraph.Summaries[f], src)
 	}
 	if !bt.run(rep, name, m.report) {
 		return
